@@ -15,7 +15,8 @@
      "entry":rva,"stack":n,"iat":[[addr,sym],…],"ranges":…,"fetch":…}
     {"op":"load.macho","cfg":C,"file":hex,"segs":[[vmaddr,vmsize,fileoff,filesize,pagezero],…],
      "stack":n|null,"slots":[[addr,sym],…],"entry":e,"ranges":…,"fetch":…}
-    {"op":"load.records","records":[[addr,hex],…],"entry":e,"pcbits":n,"ranges":…,"fetch":…}
+    {"op":"load.records","records":[[addr,hex],…],"entry":e,"pcbits":n,"relocate":v (optional: then RawExec.relocate(v)),
+     "ranges":…,"fetch":…}
       → {"task": null | {"zone":[object,…],"cache":[…],"pc":n,"wf":bool},
          "image":[[chunk,…],…]   (abs of the zone over each range),
          "fetch":[value | ["bot",n] | null,…],
@@ -225,7 +226,11 @@ def opRecords (j : Json) : Except String Json := do
     | _ => throw "record")
   let entry ← getNat j "entry"
   let pcbits ← getNat j "pcbits"
-  result j (← fixOfJson j) (some (loadRecords rs entry pcbits)) (recordWrites rs) none
+  let t := loadRecords rs entry pcbits
+  let t := match getNat j "relocate" with
+    | .ok v => relocate t v pcbits
+    | .error _ => t
+  result j (← fixOfJson j) (some t) (recordWrites rs) none
 
 def opPage (j : Json) : Except String Json := do
   let ps ← getNat j "ps"
